@@ -74,6 +74,8 @@ def explore(ck, exec_fn, configs, bound, child_filter=None, max_execs=None, chun
     global _EXEC, _FILTER
     _EXEC, _FILTER = exec_fn, child_filter
     configs = list(configs)
+    if ck.skip_after_violation('exploration of %d configurations (bound %d)' % (len(configs), bound)):
+        return {'executions': 0, 'per_level': [], 'bound_completed': -1}
     level = [(ci, cfg, (), bound > 0) for ci, cfg in enumerate(configs)]
     total = 0
     completed = -1
@@ -118,6 +120,11 @@ def explore(ck, exec_fn, configs, bound, child_filter=None, max_execs=None, chun
                     for k in kids:
                         nxt.append((ci, configs[ci], k, depth + 1 < bound))
             if hung:
+                break
+            if nxt and ck.failing():
+                per_level.append(len(level))
+                completed = depth
+                ck.cap('levels beyond %d deviations not explored: a violation was found' % depth)
                 break
             per_level.append(len(level))
             level = nxt
